@@ -15,7 +15,7 @@ Definition md := list Z.     (* metadata as a list of pair ids *)
 
 Inductive frame := FHdr (m : md) | FData (x : Z) | FTlr (m : md) | FErr (c : Z).
 
-Inductive actor := CS | CC | CR | H.
+Inductive actor := CS | CC | CR | H | HR.   (* HR: a second handler goroutine that receives while H sends *)
 
 Inductive op :=
 | CSend (x : Z) | CClose | CRecv | CHeader | CTrailer
@@ -46,7 +46,7 @@ Record st := {
   cState : Z; cLast : option frame; cHdr : md; cTlr : md;
   sendClosed : bool;
   respStream : bool;                 (* the method returns a stream of responses *)
-  pCS : option pend; pCC : option pend; pCR : option pend; pH : option pend;
+  pCS : option pend; pCC : option pend; pCR : option pend; pH : option pend; pHR : option pend;
   panicked : bool
 }.
 
@@ -54,7 +54,7 @@ Definition init (resp_stream : bool) : st :=
   {| reqQ := []; reqClosed := false; respQ := []; respClosed := false; cctx := 0;
      svrDone := false; svrCancelled := false; sState := 0; sHdr := []; sTlr := [];
      cState := 0; cLast := None; cHdr := []; cTlr := []; sendClosed := false; respStream := resp_stream;
-     pCS := None; pCC := None; pCR := None; pH := None; panicked := false |}.
+     pCS := None; pCC := None; pCR := None; pH := None; pHR := None; panicked := false |}.
 
 Definition req_capn : nat := Z.to_nat req_cap.
 Definition resp_capn : nat := Z.to_nat resp_cap.
@@ -64,28 +64,29 @@ Definition remote_done (s : st) : bool := svrDone s || svrCancelled s || negb (c
 Definition ctx_status (k : Z) : Z := if k =? 2 then 4 else 1.   (* TranslateContextError *)
 
 Definition get_pend (s : st) (a : actor) : option pend :=
-  match a with CS => pCS s | CC => pCC s | CR => pCR s | H => pH s end.
+  match a with CS => pCS s | CC => pCC s | CR => pCR s | H => pH s | HR => pHR s end.
 
 Definition set_pend (s : st) (a : actor) (p : option pend) : st :=
   match a with
-  | CS => {| reqQ := reqQ s; reqClosed := reqClosed s; respQ := respQ s; respClosed := respClosed s; cctx := cctx s; svrDone := svrDone s; svrCancelled := svrCancelled s; sState := sState s; sHdr := sHdr s; sTlr := sTlr s; cState := cState s; cLast := cLast s; cHdr := cHdr s; cTlr := cTlr s; sendClosed := sendClosed s; respStream := respStream s; pCS := p; pCC := pCC s; pCR := pCR s; pH := pH s; panicked := panicked s |}
-  | CC => {| reqQ := reqQ s; reqClosed := reqClosed s; respQ := respQ s; respClosed := respClosed s; cctx := cctx s; svrDone := svrDone s; svrCancelled := svrCancelled s; sState := sState s; sHdr := sHdr s; sTlr := sTlr s; cState := cState s; cLast := cLast s; cHdr := cHdr s; cTlr := cTlr s; sendClosed := sendClosed s; respStream := respStream s; pCS := pCS s; pCC := p; pCR := pCR s; pH := pH s; panicked := panicked s |}
-  | CR => {| reqQ := reqQ s; reqClosed := reqClosed s; respQ := respQ s; respClosed := respClosed s; cctx := cctx s; svrDone := svrDone s; svrCancelled := svrCancelled s; sState := sState s; sHdr := sHdr s; sTlr := sTlr s; cState := cState s; cLast := cLast s; cHdr := cHdr s; cTlr := cTlr s; sendClosed := sendClosed s; respStream := respStream s; pCS := pCS s; pCC := pCC s; pCR := p; pH := pH s; panicked := panicked s |}
-  | H => {| reqQ := reqQ s; reqClosed := reqClosed s; respQ := respQ s; respClosed := respClosed s; cctx := cctx s; svrDone := svrDone s; svrCancelled := svrCancelled s; sState := sState s; sHdr := sHdr s; sTlr := sTlr s; cState := cState s; cLast := cLast s; cHdr := cHdr s; cTlr := cTlr s; sendClosed := sendClosed s; respStream := respStream s; pCS := pCS s; pCC := pCC s; pCR := pCR s; pH := p; panicked := panicked s |}
+  | CS => {| reqQ := reqQ s; reqClosed := reqClosed s; respQ := respQ s; respClosed := respClosed s; cctx := cctx s; svrDone := svrDone s; svrCancelled := svrCancelled s; sState := sState s; sHdr := sHdr s; sTlr := sTlr s; cState := cState s; cLast := cLast s; cHdr := cHdr s; cTlr := cTlr s; sendClosed := sendClosed s; respStream := respStream s; pCS := p; pCC := pCC s; pCR := pCR s; pH := pH s; pHR := pHR s; panicked := panicked s |}
+  | CC => {| reqQ := reqQ s; reqClosed := reqClosed s; respQ := respQ s; respClosed := respClosed s; cctx := cctx s; svrDone := svrDone s; svrCancelled := svrCancelled s; sState := sState s; sHdr := sHdr s; sTlr := sTlr s; cState := cState s; cLast := cLast s; cHdr := cHdr s; cTlr := cTlr s; sendClosed := sendClosed s; respStream := respStream s; pCS := pCS s; pCC := p; pCR := pCR s; pH := pH s; pHR := pHR s; panicked := panicked s |}
+  | CR => {| reqQ := reqQ s; reqClosed := reqClosed s; respQ := respQ s; respClosed := respClosed s; cctx := cctx s; svrDone := svrDone s; svrCancelled := svrCancelled s; sState := sState s; sHdr := sHdr s; sTlr := sTlr s; cState := cState s; cLast := cLast s; cHdr := cHdr s; cTlr := cTlr s; sendClosed := sendClosed s; respStream := respStream s; pCS := pCS s; pCC := pCC s; pCR := p; pH := pH s; pHR := pHR s; panicked := panicked s |}
+  | H => {| reqQ := reqQ s; reqClosed := reqClosed s; respQ := respQ s; respClosed := respClosed s; cctx := cctx s; svrDone := svrDone s; svrCancelled := svrCancelled s; sState := sState s; sHdr := sHdr s; sTlr := sTlr s; cState := cState s; cLast := cLast s; cHdr := cHdr s; cTlr := cTlr s; sendClosed := sendClosed s; respStream := respStream s; pCS := pCS s; pCC := pCC s; pCR := pCR s; pH := p; pHR := pHR s; panicked := panicked s |}
+  | HR => {| reqQ := reqQ s; reqClosed := reqClosed s; respQ := respQ s; respClosed := respClosed s; cctx := cctx s; svrDone := svrDone s; svrCancelled := svrCancelled s; sState := sState s; sHdr := sHdr s; sTlr := sTlr s; cState := cState s; cLast := cLast s; cHdr := cHdr s; cTlr := cTlr s; sendClosed := sendClosed s; respStream := respStream s; pCS := pCS s; pCC := pCC s; pCR := pCR s; pH := pH s; pHR := p; panicked := panicked s |}
   end.
 
 (* field updates, written out once *)
 Definition upd_req (s : st) (q : list Z) (cl : bool) (sc : bool) (pn : bool) : st :=
-  {| reqQ := q; reqClosed := cl; respQ := respQ s; respClosed := respClosed s; cctx := cctx s; svrDone := svrDone s; svrCancelled := svrCancelled s; sState := sState s; sHdr := sHdr s; sTlr := sTlr s; cState := cState s; cLast := cLast s; cHdr := cHdr s; cTlr := cTlr s; sendClosed := sc; respStream := respStream s; pCS := pCS s; pCC := pCC s; pCR := pCR s; pH := pH s; panicked := pn |}.
+  {| reqQ := q; reqClosed := cl; respQ := respQ s; respClosed := respClosed s; cctx := cctx s; svrDone := svrDone s; svrCancelled := svrCancelled s; sState := sState s; sHdr := sHdr s; sTlr := sTlr s; cState := cState s; cLast := cLast s; cHdr := cHdr s; cTlr := cTlr s; sendClosed := sc; respStream := respStream s; pCS := pCS s; pCC := pCC s; pCR := pCR s; pH := pH s; pHR := pHR s; panicked := pn |}.
 
 Definition upd_srv (s : st) (q : list frame) (cl : bool) (d c : bool) (ss : Z) (h t : md) (pn : bool) : st :=
-  {| reqQ := reqQ s; reqClosed := reqClosed s; respQ := q; respClosed := cl; cctx := cctx s; svrDone := d; svrCancelled := c; sState := ss; sHdr := h; sTlr := t; cState := cState s; cLast := cLast s; cHdr := cHdr s; cTlr := cTlr s; sendClosed := sendClosed s; respStream := respStream s; pCS := pCS s; pCC := pCC s; pCR := pCR s; pH := pH s; panicked := pn |}.
+  {| reqQ := reqQ s; reqClosed := reqClosed s; respQ := q; respClosed := cl; cctx := cctx s; svrDone := d; svrCancelled := c; sState := ss; sHdr := h; sTlr := t; cState := cState s; cLast := cLast s; cHdr := cHdr s; cTlr := cTlr s; sendClosed := sendClosed s; respStream := respStream s; pCS := pCS s; pCC := pCC s; pCR := pCR s; pH := pH s; pHR := pHR s; panicked := pn |}.
 
 Definition upd_cli (s : st) (q : list frame) (cs : Z) (l : option frame) (h t : md) : st :=
-  {| reqQ := reqQ s; reqClosed := reqClosed s; respQ := q; respClosed := respClosed s; cctx := cctx s; svrDone := svrDone s; svrCancelled := svrCancelled s; sState := sState s; sHdr := sHdr s; sTlr := sTlr s; cState := cs; cLast := l; cHdr := h; cTlr := t; sendClosed := sendClosed s; respStream := respStream s; pCS := pCS s; pCC := pCC s; pCR := pCR s; pH := pH s; panicked := panicked s |}.
+  {| reqQ := reqQ s; reqClosed := reqClosed s; respQ := q; respClosed := respClosed s; cctx := cctx s; svrDone := svrDone s; svrCancelled := svrCancelled s; sState := sState s; sHdr := sHdr s; sTlr := sTlr s; cState := cs; cLast := l; cHdr := h; cTlr := t; sendClosed := sendClosed s; respStream := respStream s; pCS := pCS s; pCC := pCC s; pCR := pCR s; pH := pH s; pHR := pHR s; panicked := panicked s |}.
 
 Definition upd_ctx (s : st) (k : Z) : st :=
-  {| reqQ := reqQ s; reqClosed := reqClosed s; respQ := respQ s; respClosed := respClosed s; cctx := k; svrDone := svrDone s; svrCancelled := svrCancelled s; sState := sState s; sHdr := sHdr s; sTlr := sTlr s; cState := cState s; cLast := cLast s; cHdr := cHdr s; cTlr := cTlr s; sendClosed := sendClosed s; respStream := respStream s; pCS := pCS s; pCC := pCC s; pCR := pCR s; pH := pH s; panicked := panicked s |}.
+  {| reqQ := reqQ s; reqClosed := reqClosed s; respQ := respQ s; respClosed := respClosed s; cctx := k; svrDone := svrDone s; svrCancelled := svrCancelled s; sState := sState s; sHdr := sHdr s; sTlr := sTlr s; cState := cState s; cLast := cLast s; cHdr := cHdr s; cTlr := cTlr s; sendClosed := sendClosed s; respStream := respStream s; pCS := pCS s; pCC := pCC s; pCR := pCR s; pH := pH s; pHR := pHR s; panicked := panicked s |}.
 
 (* an internal step of actor a: the new state and, when the operation completes, its result *)
 Definition outcome := (st * option res)%type.
@@ -112,6 +113,15 @@ Definition err_code_of_return (s : st) (code : Z) : Z :=
   else if code =? -4 then 4                             (* a raw context.DeadlineExceeded value: DeadlineExceeded *)
   else code.
 
+(* server RecvMsg: readMessage(s.ctx, requests); takes no lock, so it runs beside a SendMsg *)
+Definition srv_recv (s : st) (a : actor) : list outcome :=
+  (match reqQ s with
+   | x :: r => [done (upd_req s r (reqClosed s) (sendClosed s) (panicked s)) a
+                     (if sctx s =? 0 then RMsg x else RCtx (sctx s))]
+   | [] => if reqClosed s then [done s a (if sctx s =? 0 then REOF else RCtx (sctx s))] else []
+   end) ++
+  (if negb (sctx s =? 0) then [done s a (RCtx (sctx s))] else []).
+
 Definition steps_of (s : st) (a : actor) (p : pend) : list outcome :=
   match a, p with
   (* ---------------- client SendMsg: reqMu; writeMessage(ctx, svrDoneCtx, requests) *)
@@ -133,13 +143,8 @@ Definition steps_of (s : st) (a : actor) (p : pend) : list outcome :=
           else [done (upd_req s (reqQ s) true true (panicked s || reqClosed s)) a RNil]
       end
   (* ---------------- server RecvMsg: readMessage(s.ctx, requests) *)
-  | H, PStart HRecv =>
-      (match reqQ s with
-       | x :: r => [done (upd_req s r (reqClosed s) (sendClosed s) (panicked s)) H
-                         (if sctx s =? 0 then RMsg x else RCtx (sctx s))]
-       | [] => if reqClosed s then [done s H (if sctx s =? 0 then REOF else RCtx (sctx s))] else []
-       end) ++
-      (if negb (sctx s =? 0) then [done s H (RCtx (sctx s))] else [])
+  | H, PStart HRecv => srv_recv s H
+  | HR, PStart HRecv => srv_recv s HR
   (* ---------------- server SetHeader / SendHeader *)
   | H, PStart (HSetHeader m) =>
       if negb (sState s =? 0) then [done s H (ROther 2)]
@@ -266,7 +271,7 @@ Definition steps_of (s : st) (a : actor) (p : pend) : list outcome :=
   | _, _ => []
   end.
 
-Definition actors : list actor := [CS; CC; CR; H].
+Definition actors : list actor := [CS; CC; CR; H; HR].
 
 (* all internal steps enabled in s, tagged with the actor *)
 Definition internal (s : st) : list (actor * outcome) :=
@@ -278,6 +283,9 @@ Definition internal (s : st) : list (actor * outcome) :=
 (* ---- rounds: what the harness does and sees ---- *)
 Inductive start := Call (a : actor) (o : op) | Cancel | Deadline.
 
+Definition recv_pending (s : st) : bool :=
+  match pH s with Some (PStart HRecv) => true | _ => false end || match pHR s with Some _ => true | None => false end.
+
 Definition apply_start (s : st) (x : start) : option st :=
   match x with
   | Call a o =>
@@ -286,7 +294,9 @@ Definition apply_start (s : st) (x : start) : option st :=
           (* a handler returns once *)
           match o with
           | HReturn _ => if svrDone s then None else Some (set_pend s a (Some (PStart o)))
-          | _ => Some (set_pend s a (Some (PStart o)))
+          (* one receiver at a time on the server side *)
+          | HRecv => if recv_pending s then None else Some (set_pend s a (Some (PStart o)))
+          | _ => match a with HR => None | _ => Some (set_pend s a (Some (PStart o))) end   (* HR only receives *)
           end
       | Some _ => None
       end
